@@ -530,6 +530,30 @@ pub fn c09<T: Fx>(thorough: bool) -> Vec<CellDef> {
                 nt,
             )
         };
+        if T::N == 32 && which < 4 && !light() {
+            // integer-valued and monotone: complete sweep of all 2^32 inputs, the reference evaluated at interval ends
+            // (vpcore::mono); every input is still executed on the real code and compared
+            let id = 0xC09_0000 + which as u64;
+            v.push(CellDef::new("C09", format!("{}/{}", T::NAME, RND[which as usize]), Space::all(32), move |k| {
+                let a = k as u32;
+                let (want, multi) = vpcore::mono::lookup(id, a, &|x| refs::rounding(32, 2, which, x).0 as u128);
+                let p = T::fb(a);
+                Out::cmp(
+                    guard(|| {
+                        match which {
+                            0 => p.round(),
+                            1 => p.floor(),
+                            2 => p.ceil(),
+                            _ => p.trunc(),
+                        }
+                        .tb() as u128
+                    }),
+                    want,
+                    multi,
+                )
+            }));
+            continue;
+        }
         for (sfx, sp) in unary_low::<T>(thorough, 5) {
             v.push(CellDef::new("C09", format!("{}/{}{}", T::NAME, RND[which as usize], sfx), sp, case));
         }
@@ -1095,6 +1119,35 @@ pub fn c07<T: Fx>(thorough: bool) -> Vec<CellDef> {
     }
     // posit -> integer (NaR is outside the property: skipped)
     for (which, name) in ["to_i32", "to_u32", "to_i64", "to_u64"].iter().enumerate() {
+        if T::N == 32 && !light() {
+            // monotone: complete sweep of all 2^32 inputs, the reference evaluated at interval ends (vpcore::mono)
+            let id = 0xC07_0000 + which as u64;
+            v.push(CellDef::new("C07", format!("{}/{}", T::NAME, name), Space::all(32), move |k| {
+                let a = k as u32;
+                if a == 0x8000_0000 {
+                    return Out::skip(); // NaR is outside the property
+                }
+                let p = T::fb(a);
+                let (lo, hi): (i128, i128) = match which {
+                    0 => (i32::MIN as i128, i32::MAX as i128),
+                    1 => (0, u32::MAX as i128),
+                    2 => (i64::MIN as i128, i64::MAX as i128),
+                    _ => (0, u64::MAX as i128),
+                };
+                let (w, multi) = vpcore::mono::lookup(id, a, &|x| vpcore::enc_i(refs::to_int(32, 2, x, lo, hi).unwrap()));
+                let got = guard(|| {
+                    let (g, h): (i128, i128) = match which {
+                        0 => (p.to_i32() as i128, p.i32_from() as i128),
+                        1 => (p.to_u32() as i128, p.u32_from() as i128),
+                        2 => (p.to_i64() as i128, p.i64_from() as i128),
+                        _ => (p.to_u64() as i128, p.u64_from() as i128),
+                    };
+                    if g == h { vpcore::enc_i(g) } else { 0xdead_beef_0000_0000_0000_0000_0000_0000 }
+                });
+                Out::cmp(got, w, multi).ops(2)
+            }));
+            continue;
+        }
         for (sfx, sp) in unary_low::<T>(thorough, 7) {
             v.push(CellDef::new("C07", format!("{}/{}{}", T::NAME, name, sfx), sp, move |k| {
                 let a = k as u32;
